@@ -6,6 +6,7 @@ import numpy as np
 
 from .. import core, symbols
 from ..translate import guards as tr_guards
+from ..translate import spectral as tr_spectral
 
 ID = "C05"
 PROPS_FILE = "C05"
@@ -13,11 +14,21 @@ RULE = ("correspondence (exact rationals, L = 2 pi q): build_laplace_operator fo
         "Poisson._inv_operator / step_fourier for orders 2 and 4 at every stored mode; ex.derivative's spectral multiplier (orders 1..6) on single stored modes; "
         "witness: ex.derivative of random Nyquist-free trigonometric polynomials (D=1..3, C=1..3, odd/even N, random L) vs the analytic derivative, Poisson vs the analytic "
         "zero-mean solution, parity guards. Non-trivial: non-constant modes; distinct by input hash.")
+TRUSTED_EXTRA = ["harness/translate/spectral.py (build_derivative_operator / build_scaled_wavenumbers; same contracts as for C04) and harness/translate/guards.py"]
 ASSUMPTIONS = ["symbol calculus for exponentials; rfftn/irfftn of C04"]
 
 
 def translate(ctx):
-    tr_guards.run()
+    """Gen/Guards.v and Gen/SpectralGen.v (the derivative operator of _spectral.py, tied to the layout by Tie/SpectralTie.v and the
+    theorem C05_code_derivative_operator_is_model); both are always attempted"""
+    errors = []
+    for name, tr in (("guards", tr_guards), ("spectral", tr_spectral)):
+        try:
+            tr.run()
+        except Exception as e:
+            errors.append(f"{name}: {type(e).__name__}: {e}")
+    if errors:
+        raise RuntimeError("; ".join(errors))
 
 
 def _ex():
